@@ -37,6 +37,71 @@ def run(ctx):
     u2(ctx, F, D)
     u3(ctx, F, D)
     u4(ctx, F, D)
+    u6(ctx, F)
+
+
+def _pat_words(pk):
+    """string literals a pattern key mentions (also inside Some(..) / tuple sub-patterns)"""
+    out = []
+    if isinstance(pk, tuple):
+        if pk[:1] == ("lit",) and len(pk) == 2 and isinstance(pk[1], str):
+            out.append(pk[1])
+        for x in pk[1:] if pk[:1] in (("or",), ("tup",)) else ():
+            out += _pat_words(x)
+        for x in (getattr(pk, "sub", None) or {}).values():
+            out += _pat_words(x)
+    return out
+
+
+def u6(ctx, F, rule="C12.U6"):
+    """the move list of a `position` command is played on the position the command states: the `startpos` branch installs a fresh
+    start position unconditionally, the `fen` branch the game the importer built from the given text - never a game left over
+    from an earlier command"""
+    fn = F.fn(POS)
+    body = fn["hir"]["body"]
+    sym = hir.Sym(hir.Env(fn["hir"], F), F)
+    arms = {}
+    for n, anc in hir.walk(body):
+        if n.get("k") == "Match" and n.get("src") == "Normal":
+            t = {}
+            for a in n["arms"]:
+                # "startpos" / Some("startpos") / ("startpos", ..): the word anywhere in the arm's pattern
+                words = [w_ for w_ in _pat_words(hir.pat_key(a["pat"])) if w_ in ("startpos", "fen")]
+                if len(words) == 1:
+                    t[words[0]] = a["body"]
+            if "startpos" in t:
+                arms = t
+                break
+    if not arms:
+        ctx.anchor_missing(rule, "the `startpos` / `fen` branches of uci::command_position")
+        return
+    for word, arm in sorted(arms.items()):
+        installs = []
+        for n, anc in hir.walk(arm):
+            if n.get("k") == "Assign" and hir.fmt(sym(n["l"]), 60).endswith("current_game"):
+                v = sym(n["r"])
+                g = [x for x in (hir.guards_of(n, arm, sym) or []) if x[0] in ("if", "arm") and x[3:4] != ("exit",)]
+                installs.append((n, v, g))
+        if word == "startpos":
+            fresh = [i for i in installs if i[1][:1] == ("ctor",) and str(i[1][1]).endswith("::Some") and
+                     any(isinstance(t_, tuple) and t_[:1] == ("call",) and str(t_[1]).endswith(("Game as std::default::Default>::default", "chess::Game::new"))
+                         for t_ in hir.subterms(i[1]))]
+            ok = any(not g for _, _, g in fresh)
+            ctx.check(rule, "startpos-installs-a-fresh-start-position", ok, fn=POS, file=fn["file"], line=hir.line(arm),
+                      what="`position startpos ...` does not always begin from a freshly built start position: the moves can be played on a "
+                           "game left over from an earlier command",
+                      expected="data.current_game = Some(Game::default()) on every path of the branch",
+                      found=[(hir.fmt(v, 60), [hir.fmt(x[1], 60) for x in g]) for _, v, g in installs])
+        else:
+            # the game installed on the accepting path is what Game::new returned for the text of this command
+            news = [c for c, _ in hir.walk(arm) if c.get("k") in ("Call", "MethodCall") and (hir.callee_of(c) or "") == "chess::Game::new"]
+            some = [i for i in installs if i[1][:1] == ("ctor",) and str(i[1][1]).endswith("::Some")]
+            ok = len(news) >= 1 and len(some) >= 1 and all(
+                all(x[0] == "arm" and "Game::new" in hir.fmt(x[1], 200) for x in g) for _, _, g in some)
+            ctx.check(rule, "fen-installs-the-imported-game", ok, fn=POS, file=fn["file"], line=hir.line(arm),
+                      what="`position fen ...` must install exactly the game the importer returned for the given text (whenever it "
+                           "returned one)", expected="match Game::new(&fen) { Ok(g) => data.current_game = Some(g), .. }",
+                      found=[(hir.fmt(v, 60), [hir.fmt(x[1], 60) for x in g]) for _, v, g in installs])
 
 
 def file_char(part, src):
@@ -318,6 +383,15 @@ def u2(ctx, F, D):
                         t[L] = kind[len(PT):]
             if t and set(t.values()) <= {"Queen", "Rook", "Bishop", "Knight"}:
                 rtab, node = t, n
+    # letters matched as bytes (b'q') are the same letters
+    rtab = {(chr(k) if isinstance(k, int) and 0 < k < 128 else k): v for k, v in rtab.items()}
+    bv = reader_by_value(F, D)
+    if bv == [] and all(L in ("q", "r", "b", "n") for L in wtab.values()):
+        # decided on the values: `e7e8q|r|n|b` are read as promotions to exactly that piece (see reader_by_value)
+        for t, L in wtab.items():
+            ctx.check("C12.U2", "reader-inverts-writer:%s" % t, True, fn=RD, file=r["file"], line=hir.line(node) if node else None,
+                      what="the promotion letter the writer produces is read back as a different piece", expected=t, found=t)
+        return
     ctx.floor("C12.U2", "reader promotion letters", len(rtab), 4)
     for t, L in wtab.items():
         ctx.check("C12.U2", "reader-inverts-writer:%s" % t, rtab.get(L) == t, fn=RD, file=r["file"],
@@ -426,6 +500,14 @@ def u4(ctx, F, D):
                         off = hir.sym_int(x[3]) if hir.sym_int(x[3]) is not None else off
                 seq.append((n["pat"]["name"], off))
     ok = [o for _, o in seq] == [97, 49, 97, 49]
+    bv = reader_by_value(F, D)
+    if bv is not None:
+        # decided on the values: sampled coordinate texts give exactly their two squares, undecodable texts give nothing
+        ctx.check("C12.U4", "reader:decodes-file,rank,file,rank", not bv, fn=RD, file=r["file"],
+                  what="the reader must decode the four characters as file-'a', rank-'1', file-'a', rank-'1' in that order "
+                       "(evaluated on 64 coordinate texts, promotion suffixes and undecodable texts)",
+                  expected="`e2e4` -> start e2, end e4; `i2e4`, `e2e9`, `e2` -> no move", found=bv[:4])
+        return
     if not ok:
         # the byte may be read in one `let` and decoded in another (a helper taking the two bytes of a square): pair every decoding
         # with the read it depends on; the reads in source order must be decoded with 'a', '1', 'a', '1'
@@ -469,6 +551,93 @@ def u4(ctx, F, D):
                     got = (hir.strip(a[0]).get("to", {}).get("name"), hir.strip(a[1]).get("to", {}).get("name"))
                 ctx.check("C12.U4", "reader:%s=(row,col)" % pn, got == want[pn], fn=RD, file=r["file"], line=hir.line(n),
                           what="the reader builds the %s square from the wrong characters" % pn, expected=want[pn], found=got)
+
+
+def reader_by_value(F, D):
+    """The reader's summary folded on literal texts.  [] = every sampled text is read as its two squares (all move kinds the board
+    may select agree on them), promotion letters give their piece, undecodable texts give no move; a list of failing cases
+    otherwise; None when the summary cannot be decided on literal text (the caller falls back to the structural reading)."""
+    from .common import summarize_with_returns, position_values, chess_evalcalls
+    from . import inline
+    if hasattr(F, "_reader_by_value"):
+        return F._reader_by_value
+    F._reader_by_value = None
+    F._reader_by_value = _reader_by_value(F, D)
+    return F._reader_by_value
+
+
+def _reader_by_value(F, D):
+    from .common import summarize_with_returns, position_values, chess_evalcalls
+    from . import inline
+    r = F.fn(RD)
+    try:
+        rnf = hir.unsuffix(position_values(summarize_with_returns(r, F), F))
+    except (hir.Unsupported, inline.Cannot):
+        return None
+    params = [p_["pat"].get("name") for p_ in r["hir"]["params"]]
+    sname = params[0]
+    ev = chess_evalcalls(None, {})
+
+    def run(text):
+        a = {("var", sname): ("lit", text)}
+        v = hir.fold(rnf, a, D, None, ev)
+        return hir.fold(v, a, D, None, ev)
+
+    def moves(v):
+        return [t for t in hir.subterms(v) if isinstance(t, tuple) and t[:1] == ("struct",) and str(t[1]).startswith(MV)]
+
+    def undecided_text(v):
+        # the text itself must be gone from the result: whatever is left undecided is about the board
+        return any(isinstance(t, tuple) and t[:1] == ("lit",) and isinstance(t[1], str) and len(t[1]) > 1 for t in hir.subterms(v)) or \
+            any(isinstance(t, tuple) and t[:1] == ("call",) and ("Iterator::n" in str(t[1]) or "<impl str>" in str(t[1])) for t in hir.subterms(v))
+    bad = []
+    castles = ("e1g1", "e8g8", "e1c1", "e8c8")
+    n = 0
+    for (r1, c1, r2, c2) in SAMPLE:
+        text = sq(r1, c1) + sq(r2, c2)
+        if text in castles:
+            continue
+        v = run(text)
+        if undecided_text(v):
+            return None
+        ms = moves(v)
+        n += 1
+        if not ms:
+            bad.append((text, "no move"))
+            continue
+        for m in ms:
+            f = dict(m[2])
+            if "start" in f and "end" in f:
+                if f["start"] != ("pos", r1, c1) or f["end"] != ("pos", r2, c2):
+                    bad.append((text, hir.fmt(m, 120)))
+            elif "start_col" in f and "end_col" in f:
+                if f["start_col"] != ("lit", c1) or f["end_col"] != ("lit", c2):
+                    bad.append((text, hir.fmt(m, 120)))
+            else:
+                bad.append((text, hir.fmt(m, 120)))
+    for text in ("i2e4", "e2i4", "e9e4", "e2e9", "e0e4", "e2e0", "`2e4", "e2", "", "e2e", "E2E4", "2e4e"):
+        v = run(text)
+        if undecided_text(v):
+            return None
+        if moves(v):
+            bad.append((text, "read as %s" % hir.fmt(moves(v)[0], 100)))
+    for L, T in (("q", "Queen"), ("r", "Rook"), ("n", "Knight"), ("b", "Bishop"), ("Q", "Queen"), ("N", "Knight")):
+        v = run("e7e8" + L)
+        if undecided_text(v):
+            return None
+        ms = moves(v)
+        if L.isupper() and not ms:
+            continue        # upper-case letters are not UCI: refusing them is fine, reading them as another piece is not
+        if not ms or any(str(m[1]) != MV + "Promotion" or dict(m[2]).get("new_piece") != ("variant", "chess::piece::PieceType::" + T)
+                         or dict(m[2]).get("start") != ("pos", 6, 4) or dict(m[2]).get("end") != ("pos", 7, 4) for m in ms):
+            bad.append(("e7e8" + L, hir.fmt(v, 120)))
+    for text in ("e7e8x", "e7e8k", "e7e8p"):
+        v = run(text)
+        if undecided_text(v):
+            return None
+        if moves(v):
+            bad.append((text, "read as %s" % hir.fmt(moves(v)[0], 100)))
+    return bad
 
 
 def en_passant_rows(F):
